@@ -58,40 +58,44 @@ def is_newline(x):
     return x.get("k") == "StringLiteral" and x.get("v") == "\n"
 
 
-def emission_shape(fn, scope):
-    """Describes the << emissions inside scope: (fixed items before the mapper loop, mapper loop info, newline count)."""
-    fixed, loops, newlines = [], [], 0
-    stmts = scope.get("c", []) if scope.get("k") == "CompoundStmt" else [scope]
-    for s in stmts:
-        if s.get("k") == "CXXForRangeStmt":
-            rng = render(s["range"])
-            items = []
-            for x in walk(s["body"]):
-                its = chain_items(x) if x.get("k") in ("CXXOperatorCallExpr", "CallExpr") else []
-                if len(its) > len(items):
-                    items = its
-            loops.append((rng, s, items))
-            continue
-        e = strip(s)
-        its = chain_items(e)
-        if its:
-            for it in its:
-                if is_newline(it):
-                    newlines += 1
-            fixed.append(its)
-    return fixed, loops, newlines
+def _shape_of(trace_, what):
+    """(fixed chains, loops [(container, loop item, per-element items)], newline count) of an emission trace"""
+    from .. import emit
+    ff = emit.flatten_fixed(trace_)
+    if ff is None:
+        raise AnalysisBroken("%s: fixed columns and per-column loops are interleaved in a way this checker does not read" % what)
+    pre, loops, post = ff
+    ls = []
+    for (_k, key, elem, inner) in loops:
+        if any(it[0] != "item" for it in inner):
+            raise AnalysisBroken("%s: nested emitting loops" % what)
+        ls.append((key, {"elem": elem}, [it[1] for it in inner]))
+    newlines = sum(1 for x in pre + post if is_newline(x))
+    return [pre] if pre else [], ls, newlines
 
 
 def writer_shape(prog, cls):
+    from .. import emit
     ctor = [f for f in prog.fns("%s::%s" % (cls, cls))][0]
     wd = prog.fn("%s::write_data" % cls)
-    hf, hl, hn = emission_shape(ctor, ctor["body"])
-    # rows: inside the loop over the cells
-    cell_loops = [n for n in walk(wd["body"]) if n.get("k") == "CXXForRangeStmt" and "cell_lst" in render(n["range"])]
-    if len(cell_loops) != 1:
-        raise AnalysisBroken("%s::write_data: loop over the cells not found" % cls)
-    rf, rl, rn = emission_shape(wd, cell_loops[0]["body"])
-    return ctor, wd, (hf, hl, hn), (rf, rl, rn), cell_loops[0]
+    try:
+        htr = emit.Tracer(ctor).run(ctor["body"].get("c", []))
+        wtr = emit.Tracer(wd).run(wd["body"].get("c", []))
+    except emit.Unknown as u:
+        raise AnalysisBroken("%s: the emitted text cannot be traced: %s" % (cls, u))
+    H = _shape_of(htr, cls + " constructor")
+    cell_loops = [it for it in wtr if it[0] == "loop" and it[1].split(".")[-1].split(">")[-1].endswith("cell_lst")]
+    if len(cell_loops) != 1 or any(it[0] == "item" for it in wtr):
+        raise AnalysisBroken("%s::write_data: loop over the cells not found (or text emitted outside it)" % cls)
+    _k, key, elem, row = cell_loops[0]
+    R = _shape_of(row, cls + "::write_data row")
+    loop_node = None
+    for n in walk(wd["body"]):
+        if n.get("k") in ("CXXForRangeStmt", "ForStmt"):
+            lk = emit.Tracer(wd).loop_key(n)
+            if lk is not None and lk[0] == key and lk[1] == elem:
+                loop_node = n
+    return ctor, wd, H, R, {"node": loop_node, "elem": elem, "fn": wd}
 
 
 def count_fixed(fixed):
@@ -153,8 +157,16 @@ def run(rep, prog, tier):
             if not (len(ri) == 2 and "value_extractor_" in render(ri[0]) and is_sep(ri[1])):
                 problems.append("row loop does not emit mapper.value_extractor_(cell) << sep")
             else:
-                arg = [strip(a) for a in call_args(strip(ri[0]))] if is_call(strip(ri[0])) else []
-                arg = [a for a in (strip(x) for x in walk(ri[0])) if a.get("k") == "DeclRefExpr" and a["ref"]["did"] == cell_loop["var"]["did"]]
+                # the extractor's argument designates the element of the cell loop: the range-for variable, list[index], or a
+                # (reference) local initialised from one of those
+                from ..model import expand
+                elem = cell_loop["elem"]
+                arg = [a for a in (strip(x) for x in walk(expand(cell_loop["fn"], ri[0]))) if a.get("k") == "DeclRefExpr" and a["ref"].get("did") in elem]
+                if not arg:
+                    for v_ in walk(cell_loop["node"] or {}):
+                        if v_.get("k") == "Var" and isinstance(v_.get("init"), dict) and any(x.get("k") == "DeclRefExpr" and (x.get("ref") or {}).get("did") in elem for x in walk(v_["init"])) \
+                                and any(x.get("k") == "DeclRefExpr" and (x.get("ref") or {}).get("did") == v_["did"] for x in walk(ri[0])):
+                            arg = [v_]
                 if not arg:
                     problems.append("the extractor is not applied to the row's own cell")
         # newline: one in the header (after the loop), one per row (after the mapper loop, inside the cell loop)
@@ -162,9 +174,9 @@ def run(rep, prog, tier):
             problems.append("newline emitted %d time(s) in the header and %d per row (expected 1 and 1)" % (H[2], R[2]))
         shapes[cls] = (hn, H[1][0][0] if H[1] else None)
         if not problems:
-            rep.ok("C19.header-row", prog, wd, cell_loop, "%s: %d fixed columns + one field per entry of %s, newline once per header / row" % (cls, hn, H[1][0][0]))
+            rep.ok("C19.header-row", prog, wd, cell_loop["node"], "%s: %d fixed columns + one field per entry of %s, newline once per header / row" % (cls, hn, H[1][0][0]))
         else:
-            rep.violation("C19.header-row", prog, wd, cell_loop, "%s: %s" % (cls, problems[0][:70]), "%s: %s: rows no longer have as many fields as the header" % (cls, "; ".join(problems)))
+            rep.violation("C19.header-row", prog, wd, cell_loop["node"], "%s: %s" % (cls, problems[0][:70]), "%s: %s: rows no longer have as many fields as the header" % (cls, "; ".join(problems)))
     if len(set(shapes.values())) != 1:
         rep.violation("C19.header-row", prog, None, None, "the two statistics writers disagree", "csv and string writers emit different tables: %s" % shapes)
     columns(rep, prog)
